@@ -2315,6 +2315,11 @@ def parse_item_tokens(line_tokens):
     if len(tokens) == 1 and tokens[0].endswith(':'):
         name = tokens[0].rstrip(':')
         return Label(line, name)
+    # include_bytes lines the reader has already resolved (file found, size
+    # appended): whatever the file is called, this is no constant definition
+    elif head == 'include_bytes' and len(tokens) == 3 and hasattr(line, 'include_bytes_path'):
+        _, path, size = tokens
+        return IncludeBytes(line, line.include_bytes_path, int(size, base=0))
     # constants
     elif len(tokens) >= 3 and tokens[1] == '=':
         name, _, *imm = tokens
